@@ -201,6 +201,64 @@ def layout_fn(case, wit):
     return (side, n)
 
 
+# ------------------------------------------------------------------------------------------------
+# (T) books with ties: every arrival sequence of n orders over three price levels
+
+
+def ties_cases(ns):
+    for side in (True, False):
+        for n in ns:
+            for seq in itertools.product((0, 1, 2), repeat=n):
+                if len(set(seq)) >= 2:
+                    yield (side, n, seq)
+
+
+def ties_fn(case, wit):
+    """orders of equal price in every arrival pattern (time priority inside a level): with and without somebody reading the
+    book's public views first, a sweep of k orders, then one order per round"""
+    side, n, seq = case
+    worst = 100 if side else 102
+    price = (lambda r: 102 - r) if side else (lambda r: 100 + r)
+    try:
+        for look in (False, True):
+            for k1 in (2, 3, 4):
+                if k1 >= n:
+                    continue
+                w = World("free", _FACTORY())
+                for i, r in enumerate(seq):
+                    w.apply(("L", side, price(r), 1, None))
+                    if i == n // 2:
+                        w.apply(("T",))  # the second half arrives one step later
+                if look:
+                    w.apply(("V",))
+                w.apply(("L", not side, worst, k1, None))
+                w.apply(("X",))
+                for _ in range(n - k1):
+                    rest = [o for o in w.live() if o.is_buy == side]
+                    if not rest:
+                        break
+                    w.apply(("L", not side, min(rest, key=K).price, 1, None))
+                    w.apply(("X",))
+                wit.merge(w.wit)
+                wit.inc("tie_book_cases")
+    except Violation as v:
+        raise Violation(v.monitor, v.msg.split(" | ")[0], "book with ties: %s side, prices submitted in the order %s%s, a sweep of %d orders then one per round | %s" % (
+            "buy" if side else "sell", [price(r) for r in seq], ", public views read before the sweep" if look else "", k1, v.msg.split(" | ", 1)[-1]))
+    return (side, n)
+
+
+def run_ties(res, factory, tier, seed, ns=None):
+    global _FACTORY
+    _FACTORY = factory
+    ns = ns or ((5, 6) if tier == "quick" else (5, 6, 7, 8))
+    ev0, dn0 = res.coverage.get("evaluations", 0), res.coverage.get("distinct_nontrivial", 0)
+    run_grid(res, "books_with_ties", list(ties_cases(ns)), ties_fn, seed)
+    res.coverage["evaluations"] = ev0 + res.coverage["witness_classes"].get("tie_book_cases", 0)
+    res.coverage["distinct_nontrivial"] = dn0
+    res.coverage["grids"]["books_with_ties"]["orders_per_side"] = list(ns)
+    res.require_witness(["tie_book_cases"])
+
+
 def run_layouts(res, factory, tier, seed, ns=None):
     global _FACTORY
     _FACTORY = factory
@@ -235,7 +293,7 @@ def replay(payload, factory):
     case = (c[0], c[1], tuple(c[2]))
     print("deep one-sided book case (is_buy side, n, arrival permutation / heap layout):", case)
     try:
-        (layout_fn if payload.get("grid") == "heap_layouts" else fn)(case, Counter())
+        {"heap_layouts": layout_fn, "books_with_ties": ties_fn}.get(payload.get("grid"), fn)(case, Counter())
     except Violation as v:
         print("  ==> VIOLATION %s: %s" % (v.monitor, v.msg))
         return v
